@@ -140,7 +140,7 @@ func verifC01Known(src []byte, f *File, o verifOpts) bool {
 		}
 		return true
 	})
-	if verifKnown("C01-zsh-redir-bang", bang) {
+	if verifKnown("C01-zsh-redir-bang", bang && verifParam("lang") == 4) {
 		return true
 	}
 	// zsh-only short parameter expansion forms
@@ -163,13 +163,13 @@ func verifC01Known(src []byte, f *File, o verifOpts) bool {
 		}
 		return true
 	})
-	if verifKnown("C01-zsh-flag-order", flagOrder) {
+	if verifKnown("C01-zsh-flag-order", flagOrder && verifParam("lang") == 4) {
 		return true
 	}
-	if verifKnown("C01-zsh-hash-joined", hashJoined) {
+	if verifKnown("C01-zsh-hash-joined", hashJoined && verifParam("lang") == 4) {
 		return true
 	}
-	if verifKnown("C01-zsh-empty-param", emptyParam) {
+	if verifKnown("C01-zsh-empty-param", emptyParam && verifParam("lang") == 4) {
 		return true
 	}
 	return false
